@@ -153,3 +153,11 @@ def sample(r):
     return dict(refcode=''.join(chr(c) for c in s['ascii']).strip(), word_count=s['wc'],
                 callouts=len(s['callouts'][0]['list']) if s['callouts'] else None,
                 registry=bool(r['env']['registry']), outcome=r['outcome'])
+
+
+def corrupt(r):
+    for s in r['shown']['secs']:
+        if s and 'wc' in s:
+            s['wc'] += 1
+            return r
+    return None
